@@ -2,35 +2,34 @@
 open Derive_model
 (*CONV*)
 (*CONVZ*)
-(* ---- shape text ---- *)
-let parse_shape (t: string) : shape =
+(* ---- shape text: parsed twice, into the model's `shape` and into a printing shape that also remembers the type of skipped fields ---- *)
+type pshape = PS of pf list | PE
+and pf = PPlain | PSkip of pshape option | PRec of pshape | POpt of pshape | POrd | PUn | PMap | PRMap of pshape
+let parse_shape (t: string) : shape * pshape =
   let pos = ref 0 in
   let peek () = t.[!pos] in
   let adv n = pos := !pos + n in
-  let rec sh () =
-    if peek () = 'E' then (adv 1; SEnum)
+  let rec sh () : shape * pshape =
+    if peek () = 'E' then (adv 1; (SEnum, PE))
     else begin
       adv 2; (* S( *)
       let rec fields () =
-        let f = fd () in
-        if peek () = ',' then (adv 1; FCons (f, fields ())) else (adv 1; FCons (f, FNil)) in
-      SStruct (fields ())
+        let (f, p) = fd () in
+        if peek () = ',' then (adv 1; let (fs, ps) = fields () in (FCons (f, fs), p :: ps)) else (adv 1; (FCons (f, FNil), [p])) in
+      let (fs, ps) = fields () in (SStruct fs, PS ps)
     end
-  and fd () =
+  and fd () : fstrat * pf =
     match peek () with
-    | 'P' -> adv 2; FPlain
-    | 'K' -> adv 1; FSkip
-    | 'R' -> adv 1; FRecurse (sh ())
-    | 'Q' -> adv 1; FRecurseOpt (sh ())
-    | 'L' -> adv 2; FOrdered
-    | 'U' -> adv 2; FUnordArr
-    | 'M' -> adv 2; FMapFlat
-    | 'N' -> let ko = t.[!pos + 1] = '1' in adv 3; FMapRec (ko, sh ())
+    | 'P' -> adv 2; (FPlain, PPlain)
+    | 'K' -> let k = t.[!pos + 1] in adv 2; if k = '1' then (let (_, p) = sh () in (FSkip, PSkip (Some p))) else (FSkip, PSkip None)
+    | 'R' -> adv 1; let (s, p) = sh () in (FRecurse s, PRec p)
+    | 'Q' -> adv 1; let (s, p) = sh () in (FRecurseOpt s, POpt p)
+    | 'L' -> adv 2; (FOrdered, POrd)
+    | 'U' -> adv 2; (FUnordArr, PUn)
+    | 'M' -> adv 2; (FMapFlat, PMap)
+    | 'N' -> let ko = t.[!pos + 1] = '1' in adv 3; let (s, p) = sh () in (FMapRec (ko, s), PRMap p)
     | _ -> failwith "shape" in
   sh ()
-(* which fields are unordered arrays (printed sorted) is read off the shape *)
-let rec fields_list = function FNil -> [] | FCons (f, r) -> f :: fields_list r
-
 (* ---- values ---- *)
 let rec parse_val (toks: string array) (i: int ref) : value =
   let t = toks.(!i) in incr i;
@@ -48,22 +47,22 @@ let rec parse_val (toks: string array) (i: int ref) : value =
   | n -> VAtom (z_of_int (int_of_string n))
 
 let zi z = string_of_int (int_of_z z)
-let rec show_val (s: shape) (v: value) : string =
+let rec show_val (s: pshape) (v: value) : string =
   match s, v with
-  | SStruct fs, VStruct vs -> "(" ^ String.concat "" (List.map2 (fun f x -> " " ^ show_field f x) (fields_list fs) vs) ^ " )"
+  | PS fs, VStruct vs -> "(" ^ String.concat "" (List.map2 (fun f x -> " " ^ show_field f x) fs vs) ^ " )"
   | _, _ -> show_plain v
 and show_plain v = match v with
   | VAtom z -> zi z | VNone -> "n" | VSome x -> "s " ^ show_plain x
   | VSeq l -> "[" ^ String.concat "" (List.map (fun z -> " " ^ zi z) l) ^ " ]"
   | VFMap m -> "{" ^ String.concat "" (List.map (fun (a, b) -> " " ^ zi a ^ ":" ^ zi b) m) ^ " }"
   | _ -> "?"
-and show_field (f: fstrat) (v: value) : string =
+and show_field (f: pf) (v: value) : string =
   match f, v with
-  | FUnordArr, VSeq l -> "[" ^ String.concat "" (List.map (fun n -> " " ^ string_of_int n) (List.sort compare (List.map int_of_z l))) ^ " ]"
-  | FRecurse s, _ -> show_val s v
-  | FRecurseOpt s, VSome x -> "s " ^ show_val s x
-  | FMapRec (_, s), VRMap m -> "<" ^ String.concat "" (List.map (fun (k, x) -> " " ^ zi k ^ " " ^ show_val s x) (List.sort (fun (a, _) (b, _) -> compare (int_of_z a) (int_of_z b)) m)) ^ " >"
-  | FMapFlat, VFMap m -> "{" ^ String.concat "" (List.map (fun (a, b) -> " " ^ string_of_int a ^ ":" ^ string_of_int b) (List.sort compare (List.map (fun (a, b) -> (int_of_z a, int_of_z b)) m))) ^ " }"
+  | PUn, VSeq l -> "[" ^ String.concat "" (List.map (fun n -> " " ^ string_of_int n) (List.sort compare (List.map int_of_z l))) ^ " ]"
+  | PRec s, _ | PSkip (Some s), _ -> show_val s v
+  | POpt s, VSome x -> "s " ^ show_val s x
+  | PRMap s, VRMap m -> "<" ^ String.concat "" (List.map (fun (k, x) -> " " ^ zi k ^ " " ^ show_val s x) (List.sort (fun (a, _) (b, _) -> compare (int_of_z a) (int_of_z b)) m)) ^ " >"
+  | PMap, VFMap m -> "{" ^ String.concat "" (List.map (fun (a, b) -> " " ^ string_of_int a ^ ":" ^ string_of_int b) (List.sort compare (List.map (fun (a, b) -> (int_of_z a, int_of_z b)) m))) ^ " }"
   | _, _ -> show_plain v
 
 (* ---- entries ---- *)
@@ -85,13 +84,13 @@ let show_mf = function
   | Modify0 cs -> "Modify[" ^ join "," (List.sort compare (List.map (function
       | InsertMany0 (k, v, c) -> Printf.sprintf "+M(%d:%d,%d)" (int_of_z k) (int_of_z v) (int_of_nat c) | RemoveMany0 (k, c) -> Printf.sprintf "-M(%d,%d)" (int_of_z k) (int_of_nat c)
       | InsertSingle0 (k, v) -> Printf.sprintf "+S(%d:%d)" (int_of_z k) (int_of_z v) | RemoveSingle0 k -> Printf.sprintf "-S(%d)" (int_of_z k)) cs)) ^ "]"
-let nth_field fs i = List.nth (fields_list fs) (int_of_nat i)
-let sub_shape = function FRecurse s | FRecurseOpt s | FMapRec (_, s) -> s | _ -> SEnum
-let rec show_entries (s: shape) (es: _ list) : string = "[" ^ join " " (List.map (show_entry s) es) ^ "]"
-and show_entry (s: shape) e : string =
+let nth_field fs i = List.nth fs (int_of_nat i)
+let sub_shape = function PRec s | POpt s | PRMap s -> s | _ -> PE
+let rec show_entries (s: pshape) (es: _ list) : string = "[" ^ join " " (List.map (show_entry s) es) ^ "]"
+and show_entry (s: pshape) e : string =
   match s with
-  | SEnum -> (match e with EEnumReplace v -> "E=" ^ show_plain v | _ -> "?enum")
-  | SStruct fs ->
+  | PE -> (match e with EEnumReplace v -> "E=" ^ show_plain v | _ -> "?enum")
+  | PS fs ->
     (match e with
      | EPlain (i, v) -> Printf.sprintf "P%d=%s" (int_of_nat i) (show_plain v)
      | ERec (i, d) -> Printf.sprintf "R%d%s" (int_of_nat i) (show_entries (sub_shape (nth_field fs i)) d)
@@ -113,15 +112,15 @@ and show_entry (s: shape) e : string =
                | MRChange (k, dd) -> (int_of_z k, 2, Printf.sprintf "~%d%s" (int_of_z k) (show_entries sub dd))) cs)))))
      | EEnumReplace _ -> "?struct")
 
-let shapes : (string, bool * shape) Hashtbl.t = Hashtbl.create 64
+let shapes : (string, bool * shape * pshape) Hashtbl.t = Hashtbl.create 64
 let expect toks i s = if toks.(!i) <> s then failwith ("expected " ^ s) else incr i
 let () =
   iter_lines Sys.argv.(1) (fun line ->
     let toks = Array.of_list (split_ws line) in
     match toks.(0) with
-    | "SHAPE" -> Hashtbl.replace shapes toks.(1) (toks.(2) = "1", parse_shape toks.(3))
+    | "SHAPE" -> let (m, p) = parse_shape toks.(3) in Hashtbl.replace shapes toks.(1) (toks.(2) = "1", m, p)
     | "PAIR" ->
-      let id = toks.(1) in let (ko, s) = Hashtbl.find shapes toks.(2) in
+      let id = toks.(1) in let (ko, s, ps) = Hashtbl.find shapes toks.(2) in
       let i = ref 3 in
       expect toks i "A"; let a = parse_val toks i in
       expect toks i "B"; let b = parse_val toks i in
@@ -129,21 +128,21 @@ let () =
       expect toks i "SUB";
       let sub = Array.to_list (Array.map int_of_string (Array.sub toks !i (Array.length toks - !i))) in
       let d = x_diff ko s a b in
-      let ds = show_entries s d in
-      let av = show_val s (x_apply s a d) in
+      let ds = show_entries ps d in
+      let av = show_val ps (x_apply s a d) in
       Printf.printf "%s D %s\n%s DR %s\n" id ds id ds;
       List.iter (fun tag -> Printf.printf "%s %s %s\n" id tag av) ["A"; "AR"; "AM"];
-      Printf.printf "%s AS %s\n" id (show_val s (List.fold_left (fun acc e -> x_apply_single s acc e) a d));
-      let xv = show_val s (x_apply s x d) in
+      Printf.printf "%s AS %s\n" id (show_val ps (List.fold_left (fun acc e -> x_apply_single s acc e) a d));
+      let xv = show_val ps (x_apply s x d) in
       Printf.printf "%s X %s\n" id xv;
       let n = List.length d in
       let pick = if n = 0 then [] else begin
         let seen = Array.make n false in
         List.rev (List.fold_left (fun acc k -> let k = k mod n in if seen.(k) then acc else (seen.(k) <- true; List.nth d k :: acc)) [] sub) end in
-      Printf.printf "%s S %s\n" id (show_val s (x_apply s a pick));
+      Printf.printf "%s S %s\n" id (show_val ps (x_apply s a pick));
       Printf.printf "%s XR %s\n%s ARR %s\n" id xv id av
     | "HIST" ->
-      let id = toks.(1) in let (ko, s) = Hashtbl.find shapes toks.(2) in
+      let id = toks.(1) in let (ko, s, ps) = Hashtbl.find shapes toks.(2) in
       let i = ref 3 in
       expect toks i "F"; let f = ref (parse_val toks i) in
       let states = ref [] in
@@ -151,6 +150,6 @@ let () =
       let states = Array.of_list (List.rev !states) in
       for k = 1 to Array.length states - 1 do
         f := x_apply s !f (x_diff ko s states.(k - 1) states.(k));
-        Printf.printf "%s H%d %s\n" id k (show_val s !f)
+        Printf.printf "%s H%d %s\n" id k (show_val ps !f)
       done
     | _ -> ())
